@@ -74,6 +74,10 @@ def init_summary(prog: Program, c: ClassInfo) -> InitSummary:
                     merged = {}
                     for k in set(e1) | set(e2):
                         a, b = e1.get(k), e2.get(k)
+                        if (a is None or b is None) and not k.startswith("self."):
+                            # a local (parameter) rebound on one side only keeps its old value on the other
+                            a = a if a is not None else ast.Name(id=k, ctx=ast.Load())
+                            b = b if b is not None else ast.Name(id=k, ctx=ast.Load())
                         if a is None or b is None:
                             merged[k] = a if a is not None else b
                         elif norm(a) == norm(b):
@@ -512,3 +516,68 @@ def self_mutations(effects, sn="self"):
                     and is_self_attr(x.func.value, self_name=sn):
                 out.append(e)
     return out
+
+
+def type_facts(guards, param):
+    """{type text: bool} - what the path's guards say about isinstance(param, T); a true disjunction whose other members are
+    known false yields its last member (unit propagation), so `if not (A or B): raise` followed by `if A: .. else: ..` gives
+    B on the else path"""
+    known = {}
+    disj = []  # lists of (atom, wanted polarity) of which at least one holds
+
+    def isinst(t):
+        if isinstance(t, ast.Call) and norm(t.func) == "isinstance" and len(t.args) == 2 and norm(t.args[0]) == param:
+            if isinstance(t.args[1], ast.Tuple):
+                return None
+            return norm(t.args[1])
+        if isinstance(t, ast.Compare) and len(t.ops) == 1 and isinstance(t.ops[0], (ast.Is, ast.Eq)) and isinstance(t.left, ast.Call) and norm(t.left.func) == "type" \
+                and len(t.left.args) == 1 and norm(t.left.args[0]) == param:
+            return norm(t.comparators[0])
+        return None
+
+    def walk(t, pol):
+        if isinstance(t, ast.UnaryOp) and isinstance(t.op, ast.Not):
+            return walk(t.operand, not pol)
+        if isinstance(t, ast.BoolOp):
+            conj = (isinstance(t.op, ast.And) and pol) or (isinstance(t.op, ast.Or) and not pol)
+            if conj:
+                for v in t.values:
+                    walk(v, pol)
+            else:
+                disj.append([(v, pol) for v in t.values])
+            return
+        if isinstance(t, ast.Call) and norm(t.func) == "isinstance" and len(t.args) == 2 and norm(t.args[0]) == param and isinstance(t.args[1], ast.Tuple):
+            if pol:
+                disj.append([(ast.Call(func=t.func, args=[t.args[0], e], keywords=[]), True) for e in t.args[1].elts])
+            else:
+                for e in t.args[1].elts:
+                    known[norm(e)] = False
+            return
+        k = isinst(t)
+        if k is not None:
+            known[k] = pol
+
+    for t, pol in guards:
+        walk(t, pol)
+    changed = True
+    while changed:
+        changed = False
+        for d in disj:
+            open_ = []
+            sat = False
+            for v, pol in d:
+                vv, pp = v, pol
+                while isinstance(vv, ast.UnaryOp) and isinstance(vv.op, ast.Not):
+                    vv, pp = vv.operand, not pp
+                k = isinst(vv)
+                if k is None:
+                    open_.append(None)
+                elif k in known:
+                    if known[k] == pp:
+                        sat = True
+                else:
+                    open_.append((k, pp))
+            if not sat and len(open_) == 1 and open_[0] is not None and open_[0][0] not in known:
+                known[open_[0][0]] = open_[0][1]
+                changed = True
+    return known
